@@ -851,7 +851,7 @@ pub mod core_m {
             ensures
                 *final(w) == (World { spawn: old(w).spawn + 1, ..*old(w) }), // [C01/CommandSpawner::spawn/exactly-one-forwarding-task-is-queued-on-the-cores-executor]
 //@rule X17.async-opaque 1 block#async move #opaque_future()#
-//@rule X6.world 1 s/\.spawner\.spawn\(/.spawner.spawn(Tracked(w), /
+//@rule X6.world 1 s/\bspawner\.spawn\(/spawner.spawn(Tracked(w), /
 //@end
 
         // View 2 (rule X17): the body of that task, read as the loop it runs when polled to its end
@@ -867,15 +867,16 @@ pub mod core_m {
                 old(w).y_events.is_prefix_of(final(w).y_events) && final(w).events == old(w).events + final(w).y_events.subrange(old(w).y_events.len() as int, final(w).y_events.len() as int), // [C01+C03/forwarder/every-event-the-command-yields-reaches-the-cores-event-queue-exactly-once-in-order]
                 old(w).y_effects.is_prefix_of(final(w).y_effects) && final(w).effects == old(w).effects + final(w).y_effects.subrange(old(w).y_effects.len() as int, final(w).y_effects.len() as int), // [C01/forwarder/every-effect-the-command-yields-reaches-the-cores-effect-queue-exactly-once-in-order]
                 final(w).spawn == old(w).spawn && final(w).ready == old(w).ready && final(w).applied == old(w).applied && final(w).model_locked == old(w).model_locked, // [C01/forwarder/touches-nothing-else-of-the-core]
+//@bind ctx let (\w+) = self\.context\.clone\(\);
 //@rule X17.await * s/\s*\.await\b//
 //@rule X17.async-block 1 s/async move \{/{/
-//@rule X17.spawn-projected 1 s/self\.context\.spawner\.spawn\(/spawn_projected(/
+//@rule X17.spawn-projected 1 s/(?:\w+\.)*spawner\.spawn\(/spawn_projected(/
 //@rule X6.world * s/command\.next\(\)/command.next(Tracked(w))/
 //@rule X6.world * s/\.was_aborted\(\)/.was_aborted(Tracked(w))/
 //@loops 1
 //@loop 1
                     invariant
-                        context.shell_channel.inner == self.context.shell_channel.inner && context.app_channel.inner == self.context.app_channel.inner,
+                        $ctx.shell_channel.inner == self.context.shell_channel.inner && $ctx.app_channel.inner == self.context.app_channel.inner,
                         self.wf(),
                         old(w).y_events.is_prefix_of(w.y_events) && w.events == old(w).events + w.y_events.subrange(old(w).y_events.len() as int, w.y_events.len() as int), // [C01+C03/forwarder/loop/events-forwarded-so-far-are-exactly-the-events-yielded-so-far]
                         old(w).y_effects.is_prefix_of(w.y_effects) && w.effects == old(w).effects + w.y_effects.subrange(old(w).y_effects.len() as int, w.y_effects.len() as int), // [C01/forwarder/loop/effects-forwarded-so-far-are-exactly-the-effects-yielded-so-far]
